@@ -99,8 +99,12 @@ pub fn apply_load_balancing_policy(
     if queries.is_empty() {
         return Ok(vec![]);
     }
-    let mut bin_totals = vec![0.0; parallelism];
-    let mut assignments: Vec<Vec<&serde_json::Value>> = vec![vec![]; parallelism];
+    // never more bins than queries: the greedy assignment below fills the bins in index order, so a
+    // bin beyond the number of queries stays empty, and allocating `parallelism` of them made a huge
+    // value (a typo, or u64::MAX) abort the process with an allocation failure
+    let n_bins = parallelism.min(queries.len());
+    let mut bin_totals = vec![0.0; n_bins];
+    let mut assignments: Vec<Vec<&serde_json::Value>> = vec![vec![]; n_bins];
     for q in queries.iter() {
         // an estimate that is missing or not a number falls back to the default weight
         let w = q
